@@ -29,7 +29,7 @@ BOOLS = {
     'detect': [['-a', '--all'], ['-f', '--fields'], ['-7', '--ascii'], ['--write-all'], ['--per-constraint'],
                ['--no-per-constraint'], ['--no-output-fields', '--no-original-fields'], ['--interleave'], ['--index'], ['--int']],
 }
-EPS = ['0', '0.5', '1e-3', '.25', '10', '1.', '0.01', 'abc', '1e', '']
+EPS = ['0', '0.5', '1e-3', '.25', '10', '1.', '0.01', '2', '1.5', '3', 'abc', '1e', '']
 UNKNOWN = ['--bogus', '-z', '--no-such-flag', '--outputs', '-Q', '--rexx']
 
 
@@ -41,7 +41,7 @@ def gen_argv(rng, cmd, files=('in.csv', 'c.tdda', 'o.csv', 'extra')):
             items.append([rng.choice(sp)])
     if cmd != 'discover':
         if rng.random() < 0.3:
-            items.append([rng.choice(['--epsilon', '-epsilon']), rng.choice(EPS[:7] if rng.random() < 0.85 else EPS)])
+            items.append([rng.choice(['--epsilon', '-epsilon']), rng.choice(EPS[:10] if rng.random() < 0.85 else EPS)])
         if rng.random() < 0.25:
             items.append([rng.choice(['-t', '--type_checking']), rng.choice(['strict', 'sloppy', 'strict', 'lax'])])
     if cmd == 'detect' and rng.random() < 0.3:
@@ -144,6 +144,8 @@ class C17(core.Prop):
         fr = cx.gen_frame(rng, fams=FAMS, maxrows=10, maxcols=3)
         vflags = [t for t in gen_argv(rng, 'verify', files=()) if t not in UNKNOWN]
         dflags = [t for t in gen_argv(rng, 'detect', files=()) if t not in UNKNOWN]
+        if rng.random() < 0.2 and not any(t in vflags for t in ('--epsilon', '-epsilon')):
+            vflags = vflags + ['--epsilon', rng.choice(['2', '1.5', '3', '0.5', '10'])]
         for c in fr['cols']:
             if rng.random() < 0.15:
                 # column names a shell user has to quote: commas, blanks at either end
@@ -290,6 +292,24 @@ class C17(core.Prop):
                     break
                 col = rng.choice(fr2['cols'])
                 col['cells'][rng.randrange(fr2['nrows'])] = rng.choice(cx.gen_cells(rng, col['fam'], 3))
+            # with --epsilon E: a value beyond the maximum by a fraction of E times the maximum (within the tolerance the
+            # option asks for, outside a smaller one: the verdict depends on the value of E that reaches the library)
+            eps = None
+            for a, b in zip(case['vflags'], case['vflags'][1:]):
+                if a in ('--epsilon', '-epsilon'):
+                    try:
+                        eps = float(b)
+                    except ValueError:
+                        eps = None
+            if eps and fr2['nrows']:
+                for col in fr2['cols']:
+                    nums = [c for c in col['cells'] if isinstance(c, (int, float)) and not isinstance(c, bool) and c == c]
+                    if col['fam'] in ('int64', 'Int64', 'float64') and nums and 0 < max(nums) < 10 ** 6:
+                        m = max(nums)
+                        v = m + m * eps * rng.choice([0.55, 0.9])
+                        col['cells'][rng.randrange(fr2['nrows'])] = int(v) if col['fam'] != 'float64' else float(int(v * 4)) / 4
+                        self.count('epsilon_scaled_perturbation')
+                        break
             if case.get('null_perturb') and fr2['nrows']:
                 # a missing value in a column that had none (a CSV integer column then loads as whole-number reals:
                 # strict and sloppy type checking part ways)
@@ -310,7 +330,28 @@ class C17(core.Prop):
             elif v.failures:
                 fail('own-constraints-fail', '%d failures verifying %s against constraints discovered from it (%s)'
                      % (v.failures, inp, fams), 'own-constraints-fail:' + ext)
+            # --- verify with the constraints file left out: the documented default is the input's own path with .tdda,
+            # directory included, wherever the command is run from
+            try:
+                os.makedirs('sub', exist_ok=True)
+                shutil.copy(inp, os.path.join('sub', inp))
+                shutil.copy('c.tdda', os.path.join('sub', 'in.tdda'))
+                sub_inp = rng.choice([os.path.join('sub', inp), os.path.abspath(os.path.join('sub', inp))])
+                rc, out, err, v = self._cli(['verify', sub_inp])
+                with contextlib.redirect_stderr(io.StringIO()):
+                    lv = verify_df(load_df(sub_inp), os.path.join('sub', 'in.tdda'))
+                if rc != 0 or v is None:
+                    fail('verify-fails', 'verify %s (constraints file left out, sub/in.tdda is there) exits %r: %s'
+                         % (sub_inp, rc, err[-200:]), 'verify-fails:default-constraints-path')
+                elif (v.passes, v.failures) != (lv.passes, lv.failures):
+                    fail('verify-differs', 'constraints file left out: command line %s / %s, library with sub/in.tdda %s / %s'
+                         % (v.passes, v.failures, lv.passes, lv.failures), 'verify-differs:default-constraints-path')
+            except OSError:
+                pass
             vkw = self._kw('verify', case['vflags'])
+            if vkw is not None and eps is not None:
+                # the documented meaning, read here and not through the translation under test: --epsilon E is epsilon=E
+                vkw = dict(vkw, epsilon=eps)
             for path in [p for p in (inp, inp2) if p]:
                 if vkw is None:
                     break
